@@ -1248,13 +1248,6 @@ pub fn frag_time_of_day(cap: &SCap, s: &str) -> Result<(u32, u32, u32, u32, u32,
                 assumptions=['chrono: with_hour(h)/with_minute(m)/with_second(s) return Some exactly for h < 24, m < 60, s < 60', 'DATE_REGEX groups 6-8 capture 1-2 digits, so parsing them as u32 cannot fail'])
 
 
-def unit_rootopts(inj, scratch):
-    rel = 'src/parser.rs'
-    s = src(rel, scratch)
-    inj.append(rel, H('parser.kani.rs'))
-    return dict(functions=[fn_record(s, 'parse_root_options', 'K', impl='Parser', how='whole real function on concrete token vectors in an appended harness')], dropped=[])
-
-
 # --------------------------------------------------------------------------------------------------
 # capabilities.rs: bit -> name table, flag letters (C04)
 # --------------------------------------------------------------------------------------------------
